@@ -12,7 +12,8 @@ ONE_BUDGET_MS = 1500
 def case_line(g, costs, inputs, kind="O"):
     src = g if isinstance(g, str) else g.render()
     cs = " ".join("%s=%d" % (k, v) for k, v in sorted(costs.items()))
-    return "%s %s ; costs %s ; %s" % (kind, src.encode().hex(), cs, " ; ".join(" ".join(i) for i in inputs))
+    # (no trailing separator: an empty part after ';' IS the empty input)
+    return "%s %s ; costs %s%s" % (kind, src.encode().hex(), cs, "".join(" ; " + " ".join(i) for i in inputs))
 
 
 def sections(line):
